@@ -104,13 +104,13 @@ package collection
 // ---------------------------------------------------------------- array_ (C01, C18)
 
 //@ func (*arrayClass_).Make
-//@   props C01 C18
+//@   props C01 C18 C19
 //@   implements ArrayClassLike.Make
 //@ func (*arrayClass_).MakeFromArray
-//@   props C01 C18
+//@   props C01 C18 C19
 //@   implements ArrayClassLike.MakeFromArray
 //@ func (*arrayClass_).MakeFromSequence
-//@   props C01 C18
+//@   props C01 C18 C19
 //@   implements ArrayClassLike.MakeFromSequence
 //@   loop 1:
 //@     invariant 0 <= index && index <= size && size == len(view(values)) && len(array) == size
@@ -119,28 +119,28 @@ package collection
 //@     decreases size - index
 
 //@ func (array_).GetValue
-//@   props C01
+//@   props C01 C19
 //@   implements Accessible.GetValue
 //@ func (array_).GetValues
-//@   props C01 C18
+//@   props C01 C18 C19
 //@   implements Accessible.GetValues
 //@ func (array_).IsEmpty
-//@   props C01
+//@   props C01 C19
 //@   implements Sequential.IsEmpty
 //@ func (array_).GetSize
-//@   props C01
+//@   props C01 C19
 //@   implements Sequential.GetSize
 //@ func (array_).AsArray
-//@   props C01 C18 C17
+//@   props C01 C18 C17 C19
 //@   implements Sequential.AsArray
 //@ func (array_).GetIterator
-//@   props C01 C17 C18
+//@   props C01 C17 C18 C19
 //@   implements Sequential.GetIterator
 //@ func (array_).SetValue
-//@   props C01
+//@   props C01 C19
 //@   implements Updatable.SetValue
 //@ func (array_).SetValues
-//@   props C01 C18
+//@   props C01 C18 C19
 //@   implements Updatable.SetValues
 
 // ---------------------------------------------------------------- list_ (C01)
@@ -222,50 +222,50 @@ package collection
 //@   ensures result <==> (forall j :: 0 <= j && j < len(view(values)) ==> lmem(view(this), view(values)[j]))
 
 //@ func (*listClass_).Make
-//@   props C01 C18
+//@   props C01 C18 C19
 //@   implements ListClassLike.Make
 //@   ensures inv(list_, result)
 //@ func (*listClass_).MakeFromArray
-//@   props C01 C18
+//@   props C01 C18 C19
 //@   implements ListClassLike.MakeFromArray
 //@ func (*listClass_).MakeFromSequence
-//@   props C01 C18
+//@   props C01 C18 C19
 //@   implements ListClassLike.MakeFromSequence
 //@   loop 1:
 //@     invariant snap(iterator) == old(view(values)) && 0 <= pos(iterator) && pos(iterator) <= len(snap(iterator))
 //@     invariant list != nil && fresh(list) && view(list) == old(view(values))[0 : pos(iterator)]
 //@     decreases len(snap(iterator)) - pos(iterator)
 //@ func (*listClass_).Concatenate
-//@   props C01 C16 C18
+//@   props C01 C16 C18 C19
 //@   implements ListClassLike.Concatenate
 
 //@ func (*list_).GetValue
-//@   props C01
+//@   props C01 C19
 //@   implements Accessible.GetValue
 //@ func (*list_).GetValues
-//@   props C01 C18
+//@   props C01 C18 C19
 //@   implements Accessible.GetValues
 //@ func (*list_).IsEmpty
-//@   props C01
+//@   props C01 C19
 //@   implements Sequential.IsEmpty
 //@ func (*list_).GetSize
-//@   props C01
+//@   props C01 C19
 //@   implements Sequential.GetSize
 //@ func (*list_).AsArray
-//@   props C01 C18
+//@   props C01 C18 C19
 //@   implements Sequential.AsArray
 //@ func (*list_).GetIterator
-//@   props C01 C17 C18
+//@   props C01 C17 C18 C19
 //@   implements Sequential.GetIterator
 //@ func (*list_).SetValue
-//@   props C01
+//@   props C01 C19
 //@   implements Updatable.SetValue
 //@ func (*list_).SetValues
-//@   props C01 C18
+//@   props C01 C18 C19
 //@   implements Updatable.SetValues
 
 //@ func (*list_).InsertValue
-//@   props C01 C13 C02
+//@   props C01 C13 C02 C19
 //@   implements Expandable.InsertValue
 //@   let n := len(view(this))
 //@   loop 1:
@@ -275,7 +275,7 @@ package collection
 //@     decreases n + 1 - index
 
 //@ func (*list_).InsertValues
-//@   props C01 C18
+//@   props C01 C18 C19
 //@   implements Expandable.InsertValues
 //@   let n := len(view(this))
 //@   let m := len(view(values))
@@ -295,7 +295,7 @@ package collection
 //@     decreases m - pos(iterator2)
 
 //@ func (*list_).AppendValue
-//@   props C01 C03
+//@   props C01 C03 C19
 //@   implements Expandable.AppendValue
 //@   let n := len(view(this))
 //@   loop 1:
@@ -305,7 +305,7 @@ package collection
 //@     decreases n - index
 
 //@ func (*list_).AppendValues
-//@   props C01 C18
+//@   props C01 C18 C19
 //@   implements Expandable.AppendValues
 //@   let n := len(view(this))
 //@   let m := len(view(values))
@@ -321,7 +321,7 @@ package collection
 //@     decreases n + m - index
 
 //@ func (*list_).RemoveValue
-//@   props C01 C13 C02 C03
+//@   props C01 C13 C02 C03 C19
 //@   implements Expandable.RemoveValue
 //@   let n := len(view(this))
 //@   let k := norm(index, n)
@@ -333,7 +333,7 @@ package collection
 //@     decreases n - pos(iterator)
 
 //@ func (*list_).RemoveValues
-//@   props C01 C18
+//@   props C01 C18 C19
 //@   implements Expandable.RemoveValues
 //@   let n := len(view(this))
 //@   let f := norm(first, n)
@@ -349,11 +349,11 @@ package collection
 //@     decreases n - counter
 
 //@ func (*list_).RemoveAll
-//@   props C01 C13
+//@   props C01 C13 C19
 //@   implements Expandable.RemoveAll
 
 //@ func (*list_).GetIndex
-//@   props C01 C03
+//@   props C01 C03 C19
 //@   implements ListLike.GetIndex
 //@   let n := len(view(this))
 //@   loop 1:
@@ -361,17 +361,17 @@ package collection
 //@     invariant forall i :: 0 <= i && i <= rangeindex ==> !ceq(view(this)[i], value)
 //@     decreases n - rangeindex
 //@ func (*list_).ContainsValue
-//@   props C01
+//@   props C01 C19
 //@   implements ListLike.ContainsValue
 //@ func (*list_).ContainsAny
-//@   props C01
+//@   props C01 C19
 //@   implements ListLike.ContainsAny
 //@   loop 1:
 //@     invariant snap(iterator) == old(view(values)) && 0 <= pos(iterator) && pos(iterator) <= len(snap(iterator))
 //@     invariant forall j :: 0 <= j && j < pos(iterator) ==> !lmem(view(this), old(view(values))[j])
 //@     decreases len(snap(iterator)) - pos(iterator)
 //@ func (*list_).ContainsAll
-//@   props C01
+//@   props C01 C19
 //@   implements ListLike.ContainsAll
 //@   loop 1:
 //@     invariant snap(iterator) == old(view(values)) && 0 <= pos(iterator) && pos(iterator) <= len(snap(iterator))
@@ -424,47 +424,47 @@ package collection
 //@   ensures view(this) == empty()
 
 //@ func (*stackClass_).Make
-//@   props C13
+//@   props C13 C19
 //@   implements StackClassLike.Make
 //@   ensures inv(stack_, result)
 //@ func (*stackClass_).MakeWithCapacity
-//@   props C13
+//@   props C13 C19
 //@   implements StackClassLike.MakeWithCapacity
 //@   ensures inv(stack_, result)
 //@ func (*stackClass_).MakeFromArray
-//@   props C13 C18
+//@   props C13 C18 C19
 //@   implements StackClassLike.MakeFromArray
 //@   ensures[C13] inv(stack_, result)
 //@ func (*stackClass_).MakeFromSequence
-//@   props C13 C18
+//@   props C13 C18 C19
 //@   implements StackClassLike.MakeFromSequence
 //@   ensures[C13] inv(stack_, result)
 //@ func (*stack_).GetCapacity
-//@   props C13
+//@   props C13 C19
 //@   implements StackLike.GetCapacity
 //@ func (*stack_).AddValue
-//@   props C13
+//@   props C13 C19
 //@   implements StackLike.AddValue
 //@   modifies view(this.values_)
 //@ func (*stack_).RemoveTop
-//@   props C13
+//@   props C13 C19
 //@   implements StackLike.RemoveTop
 //@   modifies view(this.values_)
 //@ func (*stack_).RemoveAll
-//@   props C13
+//@   props C13 C19
 //@   implements StackLike.RemoveAll
 //@   modifies view(this.values_)
 //@ func (*stack_).IsEmpty
-//@   props C13
+//@   props C13 C19
 //@   implements Sequential.IsEmpty
 //@ func (*stack_).GetSize
-//@   props C13
+//@   props C13 C19
 //@   implements Sequential.GetSize
 //@ func (*stack_).AsArray
-//@   props C13 C18
+//@   props C13 C18 C19
 //@   implements Sequential.AsArray
 //@ func (*stack_).GetIterator
-//@   props C13 C17 C18
+//@   props C13 C17 C18 C19
 //@   implements Sequential.GetIterator
 
 // ---------------------------------------------------------------- set_ (C02, C15)
@@ -492,16 +492,17 @@ package collection
 //@   hypothesis preorder(this.collator_)
 
 //@ func (*set_).findIndex
-//@   props C02 C15
+//@   props C02 C15 C19
 //@   nopanic
 //@   let n := len(view(this))
 //@   let c := this.collator_
+//@   modifies cstate(this.collator_)
 //@   ensures result.1 ==> 1 <= result.0 && result.0 <= n && rank(c, value, view(this)[result.0 - 1]) == 1
 //@   ensures !result.1 ==> 0 <= result.0 && result.0 <= n
 //@   ensures !result.1 ==> (forall i :: 0 <= i && i < result.0 ==> rank(c, value, view(this)[i]) == 2)
 //@   ensures !result.1 ==> (forall i :: result.0 <= i && i < n ==> rank(c, value, view(this)[i]) == 0)
 //@   loop 1:
-//@     invariant 1 <= first && last <= n && size == last - first + 1 && size >= 0
+//@     invariant 1 <= first && last <= n && size == last - first + 1 && size >= 0 && unchanged(cstate, this.collator_)
 //@     invariant forall i :: 0 <= i && i < first - 1 ==> rank(c, value, view(this)[i]) == 2
 //@     invariant forall i :: last <= i && i < n ==> rank(c, value, view(this)[i]) == 0
 //@     decreases size
@@ -513,7 +514,7 @@ package collection
 //@   let n := len(view(this))
 //@   let c := collator(this)
 //@   nopanic
-//@   modifies view(this)
+//@   modifies view(this), cstate(collator(this))
 //@   ensures[C02] smem(c, old(view(this)), value) ==> view(this) == old(view(this))
 //@   ensures[C02] !smem(c, old(view(this)), value) ==> (exists k :: 0 <= k && k <= n && view(this) == insert(old(view(this)), k, value))
 //@   ensures[C02,C15] forall y U :: smem(c, view(this), y) <==> smem(c, old(view(this)), y) || rank(c, y, value) == 1
@@ -522,7 +523,7 @@ package collection
 //@   let n := len(view(this))
 //@   let c := collator(this)
 //@   nopanic
-//@   modifies view(this)
+//@   modifies view(this), cstate(collator(this))
 //@   ensures[C02] !smem(c, old(view(this)), value) ==> view(this) == old(view(this))
 //@   ensures[C02] smem(c, old(view(this)), value) ==> (exists k :: 0 <= k && k < n && rank(c, value, old(view(this))[k]) == 1 && view(this) == remove(old(view(this)), k))
 //@   ensures[C02,C15] forall y U :: smem(c, view(this), y) <==> smem(c, old(view(this)), y) && rank(c, y, value) != 1
@@ -533,56 +534,58 @@ package collection
 //@   ensures view(this) == empty()
 //@ iface SetLike.ContainsValue
 //@   nopanic
+//@   modifies cstate(collator(this))
 //@   ensures[C02] result <==> smem(collator(this), view(this), value)
 //@ iface SetLike.GetIndex
 //@   let n := len(view(this))
 //@   nopanic
+//@   modifies cstate(collator(this))
 //@   ensures[C02] 0 <= result && result <= n
 //@   ensures[C02] result == 0 ==> !smem(collator(this), view(this), value)
 //@   ensures[C02] result != 0 ==> rank(collator(this), value, view(this)[result - 1]) == 1
 
 //@ func (*set_).GetCollator
-//@   props C02 C15
+//@   props C02 C15 C19
 //@   implements SetLike.GetCollator
 //@ func (*set_).AddValue
-//@   props C02 C15
+//@   props C02 C15 C19
 //@   implements SetLike.AddValue
 //@   uses smem_insert
-//@   modifies view(this.values_)
+//@   modifies view(this.values_), cstate(this.collator_)
 //@   ensures this.values_ == old(this.values_)
 //@ func (*set_).RemoveValue
-//@   props C02 C15
+//@   props C02 C15 C19
 //@   implements SetLike.RemoveValue
 //@   uses smem_remove
-//@   modifies view(this.values_)
+//@   modifies view(this.values_), cstate(this.collator_)
 //@   ensures this.values_ == old(this.values_)
 //@ func (*set_).RemoveAll
-//@   props C02
+//@   props C02 C19
 //@   implements SetLike.RemoveAll
 //@   modifies view(this.values_)
 //@ func (*set_).ContainsValue
-//@   props C02 C15
+//@   props C02 C15 C19
 //@   implements SetLike.ContainsValue
 //@ func (*set_).GetIndex
-//@   props C02
+//@   props C02 C19
 //@   implements SetLike.GetIndex
 //@ func (*set_).GetValue
-//@   props C02
+//@   props C02 C19
 //@   implements Accessible.GetValue
 //@ func (*set_).GetValues
-//@   props C02 C18
+//@   props C02 C18 C19
 //@   implements Accessible.GetValues
 //@ func (*set_).IsEmpty
-//@   props C02
+//@   props C02 C19
 //@   implements Sequential.IsEmpty
 //@ func (*set_).GetSize
-//@   props C02
+//@   props C02 C19
 //@   implements Sequential.GetSize
 //@ func (*set_).AsArray
-//@   props C02 C18
+//@   props C02 C18 C19
 //@   implements Sequential.AsArray
 //@ func (*set_).GetIterator
-//@   props C02 C17 C18
+//@   props C02 C17 C18 C19
 //@   implements Sequential.GetIterator
 
 //@ lemma[C02,C15] smem_snoc: forall c U, s Seq, p Int, q Int, y U :: { smem(c, s[0:q], y), s[0:p] } q == p + 1 && 0 <= p && p < len(s) ==> (smem(c, s[0:q], y) <==> smem(c, s[0:p], y) || rank(c, y, s[p]) == 1)
@@ -593,27 +596,29 @@ package collection
 //@ iface SetLike.AddValues
 //@   let c := collator(this)
 //@   nopanic
-//@   modifies view(this)
+//@   modifies view(this), cstate(collator(this))
 //@   ensures[C02,C15] forall y U :: smem(c, view(this), y) <==> smem(c, old(view(this)), y) || smem(c, old(view(values)), y)
 //@   ensures[C02,C15] sorted(c, view(this))
 //@ iface SetLike.RemoveValues
 //@   let c := collator(this)
 //@   nopanic
-//@   modifies view(this)
+//@   modifies view(this), cstate(collator(this))
 //@   ensures[C02,C15] forall y U :: smem(c, view(this), y) <==> smem(c, old(view(this)), y) && !smem(c, old(view(values)), y)
 //@   ensures[C02,C15] sorted(c, view(this))
 //@ iface SetLike.ContainsAny
 //@   nopanic
+//@   modifies cstate(collator(this))
 //@   ensures[C02] result <==> (exists j :: 0 <= j && j < len(view(values)) && smem(collator(this), view(this), view(values)[j]))
 //@ iface SetLike.ContainsAll
 //@   nopanic
+//@   modifies cstate(collator(this))
 //@   ensures[C02] result <==> (forall j :: 0 <= j && j < len(view(values)) ==> smem(collator(this), view(this), view(values)[j]))
 
 //@ func (*set_).AddValues
-//@   props C02 C15 C18
+//@   props C02 C15 C18 C19
 //@   implements SetLike.AddValues
 //@   uses smem_snoc, smem_take_all, smem_take_none
-//@   modifies view(this.values_)
+//@   modifies view(this.values_), cstate(this.collator_)
 //@   let c := this.collator_
 //@   loop 1:
 //@     invariant snap(iterator) == old(view(values)) && 0 <= pos(iterator) && pos(iterator) <= len(snap(iterator)) && this.collator_ == c
@@ -623,10 +628,10 @@ package collection
 //@     invariant unchanged(view, old(this.values_))
 //@     decreases len(snap(iterator)) - pos(iterator)
 //@ func (*set_).RemoveValues
-//@   props C02 C15 C18
+//@   props C02 C15 C18 C19
 //@   implements SetLike.RemoveValues
 //@   uses smem_snoc, smem_take_all, smem_take_none
-//@   modifies view(this.values_)
+//@   modifies view(this.values_), cstate(this.collator_)
 //@   let c := this.collator_
 //@   loop 1:
 //@     invariant snap(iterator) == old(view(values)) && 0 <= pos(iterator) && pos(iterator) <= len(snap(iterator)) && this.collator_ == c
@@ -636,14 +641,14 @@ package collection
 //@     invariant unchanged(view, old(this.values_))
 //@     decreases len(snap(iterator)) - pos(iterator)
 //@ func (*set_).ContainsAny
-//@   props C02
+//@   props C02 C19
 //@   implements SetLike.ContainsAny
 //@   loop 1:
 //@     invariant snap(iterator) == old(view(values)) && 0 <= pos(iterator) && pos(iterator) <= len(snap(iterator))
 //@     invariant forall j :: 0 <= j && j < pos(iterator) ==> !smem(this.collator_, view(this), old(view(values))[j])
 //@     decreases len(snap(iterator)) - pos(iterator)
 //@ func (*set_).ContainsAll
-//@   props C02
+//@   props C02 C19
 //@   implements SetLike.ContainsAll
 //@   loop 1:
 //@     invariant snap(iterator) == old(view(values)) && 0 <= pos(iterator) && pos(iterator) <= len(snap(iterator))
@@ -659,22 +664,26 @@ package collection
 //@ iface SetClassLike.Make
 //@   nopanic
 //@   ensures fresh(result) && result != nil && view(result) == empty() && collator(result) != nil
+//@   ensures[C19] fresh(collator(result))
 //@ iface SetClassLike.MakeWithCollator
 //@   nopanic
 //@   ensures fresh(result) && result != nil && view(result) == empty() && collator(result) == collator
 //@ iface SetClassLike.MakeFromArray
 //@   nopanic
 //@   ensures fresh(result) && result != nil && collator(result) != nil && sorted(collator(result), view(result))
+//@   ensures[C19] fresh(collator(result))
 //@   ensures[C02] forall y U :: smem(collator(result), view(result), y) <==> smem(collator(result), view(values), y)
 //@ iface SetClassLike.MakeFromSequence
 //@   nopanic
 //@   ensures fresh(result) && result != nil && collator(result) != nil && sorted(collator(result), view(result))
+//@   ensures[C19] fresh(collator(result))
 //@   ensures[C02] forall y U :: smem(collator(result), view(result), y) <==> smem(collator(result), view(values), y)
 
 //@ iface SetClassLike.And
 //@   let c := collator(first)
 //@   requires collator(first) == collator(second) && preorder(collator(first))
 //@   nopanic
+//@   modifies cstate(collator(first))
 //@   ensures[C15] fresh(result) && result != nil && collator(result) == c && sorted(c, view(result))
 //@   ensures[C15] forall y U :: smem(c, view(result), y) <==> smem(c, view(first), y) && smem(c, view(second), y)
 //@   ensures[C15] view(first) == old(view(first)) && view(second) == old(view(second))
@@ -682,6 +691,7 @@ package collection
 //@   let c := collator(first)
 //@   requires collator(first) == collator(second) && preorder(collator(first))
 //@   nopanic
+//@   modifies cstate(collator(first))
 //@   ensures[C15] fresh(result) && result != nil && collator(result) == c && sorted(c, view(result))
 //@   ensures[C15] forall y U :: smem(c, view(result), y) <==> smem(c, view(first), y) || smem(c, view(second), y)
 //@   ensures[C15] view(first) == old(view(first)) && view(second) == old(view(second))
@@ -689,6 +699,7 @@ package collection
 //@   let c := collator(first)
 //@   requires collator(first) == collator(second) && preorder(collator(first))
 //@   nopanic
+//@   modifies cstate(collator(first))
 //@   ensures[C15] fresh(result) && result != nil && collator(result) == c && sorted(c, view(result))
 //@   ensures[C15] forall y U :: smem(c, view(result), y) <==> smem(c, view(first), y) && !smem(c, view(second), y)
 //@   ensures[C15] view(first) == old(view(first)) && view(second) == old(view(second))
@@ -696,22 +707,23 @@ package collection
 //@   let c := collator(first)
 //@   requires collator(first) == collator(second) && preorder(collator(first))
 //@   nopanic
+//@   modifies cstate(collator(first))
 //@   ensures[C15] fresh(result) && result != nil && collator(result) == c && sorted(c, view(result))
 //@   ensures[C15] forall y U :: smem(c, view(result), y) <==> (smem(c, view(first), y) && !smem(c, view(second), y)) || (smem(c, view(second), y) && !smem(c, view(first), y))
 //@   ensures[C15] view(first) == old(view(first)) && view(second) == old(view(second))
 
 //@ func (*setClass_).Make
-//@   props C02 C15
+//@   props C02 C15 C19
 //@   implements SetClassLike.Make
 //@ func (*setClass_).MakeWithCollator
-//@   props C02 C15
+//@   props C02 C15 C19
 //@   implements SetClassLike.MakeWithCollator
 //@   ensures inv(set_, result)
 //@ func (*setClass_).MakeFromArray
-//@   props C02 C18
+//@   props C02 C18 C19
 //@   implements SetClassLike.MakeFromArray
 //@ func (*setClass_).MakeFromSequence
-//@   props C02 C18
+//@   props C02 C18 C19
 //@   implements SetClassLike.MakeFromSequence
 //@   uses smem_snoc, smem_take_all, smem_take_none, smem_empty
 //@   loop 1:
@@ -721,8 +733,9 @@ package collection
 //@     decreases len(snap(iterator)) - pos(iterator)
 
 //@ func (*setClass_).And
-//@   props C15
+//@   props C15 C19
 //@   implements SetClassLike.And
+//@   ensures[C19] fresh(collator(result))
 //@   uses smem_snoc, smem_take_all, smem_take_none, smem_empty, smem_equiv
 //@   let c := collator(first)
 //@   loop 1:
@@ -732,16 +745,19 @@ package collection
 //@     invariant forall y U :: smem(c, view(result), y) <==> smem(c, old(view(first))[0:pos(iterator)], y) && smem(c, old(view(second)), y)
 //@     decreases len(snap(iterator)) - pos(iterator)
 //@ func (*setClass_).Or
-//@   props C15
+//@   props C15 C19
 //@   implements SetClassLike.Or
+//@   ensures[C19] fresh(collator(result))
 //@   uses smem_empty
 //@ func (*setClass_).Sans
-//@   props C15
+//@   props C15 C19
 //@   implements SetClassLike.Sans
+//@   ensures[C19] fresh(collator(result))
 //@   uses smem_empty
 //@ func (*setClass_).Xor
-//@   props C15
+//@   props C15 C19
 //@   implements SetClassLike.Xor
+//@   ensures[C19] fresh(collator(result))
 
 // ---------------------------------------------------------------- association_ (C03, C14, C16)
 
@@ -770,16 +786,16 @@ package collection
 //@   ensures aval(this) == value
 
 //@ func (*associationClass_).Make
-//@   props C03 C14 C16
+//@   props C03 C14 C16 C19
 //@   implements AssociationClassLike.Make
 //@ func (*association_).GetKey
-//@   props C03 C14
+//@   props C03 C14 C19
 //@   implements AssociationLike.GetKey
 //@ func (*association_).GetValue
-//@   props C03 C14
+//@   props C03 C14 C19
 //@   implements AssociationLike.GetValue
 //@ func (*association_).SetValue
-//@   props C03 C14
+//@   props C03 C14 C19
 //@   implements AssociationLike.SetValue
 
 // ---------------------------------------------------------------- map_ (C14)
@@ -855,10 +871,10 @@ package collection
 //@   ensures[C14] card(this) == 0 && (forall k U :: !dom(this, k))
 
 //@ func (*mapClass_).Make
-//@   props C14
+//@   props C14 C19
 //@   implements MapClassLike.Make
 //@ func (*mapClass_).MakeFromMap
-//@   props C14 C18
+//@   props C14 C18 C19
 //@   implements MapClassLike.MakeFromMap
 //@   loop 1:
 //@     invariant 0 <= $rpos && $rpos <= len($enum) && duplicate != nil && fresh(duplicate) && duplicate != associations
@@ -867,29 +883,29 @@ package collection
 //@     decreases len($enum) - $rpos
 
 //@ func (map_).GetValue
-//@   props C14
+//@   props C14 C19
 //@   implements MapLike.GetValue
 //@ func (map_).SetValue
-//@   props C14
+//@   props C14 C19
 //@   implements MapLike.SetValue
 //@ func (map_).RemoveValue
-//@   props C14
+//@   props C14 C19
 //@   implements MapLike.RemoveValue
 //@ func (map_).IsEmpty
-//@   props C14
+//@   props C14 C19
 //@   implements MapLike.IsEmpty
 //@ func (map_).GetSize
-//@   props C14
+//@   props C14 C19
 //@   implements MapLike.GetSize
 //@ func (map_).AsArray
-//@   props C14 C18
+//@   props C14 C18 C19
 //@   implements MapLike.AsArray
 //@   loop 1:
 //@     invariant 0 <= $rpos && $rpos <= len($enum) && index == $rpos && len(array) == len($enum) && fresh(array)
 //@     invariant forall i :: 0 <= i && i < index ==> array[i] != nil && fresh(array[i]) && akey(array[i]) == $enum[i] && aval(array[i]) == get(this, $enum[i])
 //@     decreases len($enum) - $rpos
 //@ func (map_).GetIterator
-//@   props C14 C17 C18
+//@   props C14 C17 C18 C19
 //@   implements MapLike.GetIterator
 
 //@ lemma[C14] kin_drop: forall s Seq, p Int, q Int, n Int, k U :: { kin(s[p:n], k), s[q:n] } q == p + 1 && n == len(s) && 0 <= p && p < n ==> (kin(s[p:n], k) <==> s[p] == k || kin(s[q:n], k))
@@ -915,7 +931,7 @@ package collection
 //@ lemma[C14,C03,C16] kmem_take_all: forall s Seq, p Int, k U :: { kmem(s[0:p], k) } p == len(s) ==> (kmem(s[0:p], k) <==> kmem(s, k))
 
 //@ func (*mapClass_).MakeFromArray
-//@   props C14 C18
+//@   props C14 C18 C19
 //@   implements MapClassLike.MakeFromArray
 //@   uses kmem_snoc, kmem_take_none, kmem_take_all
 //@   let n := len(associations)
@@ -927,7 +943,7 @@ package collection
 //@     invariant forall i :: 0 <= i && i <= rangeindex ==> dom(duplicate, akey(s[i])) && (lastkey(s, i, rangeindex + 1) ==> get(duplicate, akey(s[i])) == aval(s[i]))
 //@     decreases n - rangeindex
 //@ func (*mapClass_).MakeFromSequence
-//@   props C14 C18
+//@   props C14 C18 C19
 //@   implements MapClassLike.MakeFromSequence
 //@   uses kmem_snoc, kmem_take_none, kmem_take_all
 //@   let s := view(associations)
@@ -939,7 +955,7 @@ package collection
 //@     decreases size - index
 
 //@ func (map_).GetKeys
-//@   props C14 C18
+//@   props C14 C18 C19
 //@   implements MapLike.GetKeys
 //@   loop 1:
 //@     invariant index == pos(iterator) + 1 && 0 <= pos(iterator) && pos(iterator) <= size && len(snap(iterator)) == size && len(view(keys)) == size && fresh(keys)
@@ -948,14 +964,14 @@ package collection
 //@     invariant forall k U :: dom(this, k) ==> kmem(snap(iterator), k)
 //@     decreases size - pos(iterator)
 //@ func (map_).GetValues
-//@   props C14 C18
+//@   props C14 C18 C19
 //@   implements MapLike.GetValues
 //@   loop 1:
 //@     invariant index == pos(iterator) + 1 && 0 <= pos(iterator) && pos(iterator) <= size && snap(iterator) == old(view(keys)) && len(snap(iterator)) == size && len(view(values)) == size && fresh(values)
 //@     invariant forall j :: 0 <= j && j < pos(iterator) ==> view(values)[j] == ite(dom(this, old(view(keys))[j]), get(this, old(view(keys))[j]), zero(V))
 //@     decreases size - pos(iterator)
 //@ func (map_).RemoveAll
-//@   props C14
+//@   props C14 C19
 //@   implements MapLike.RemoveAll
 //@   uses kin_drop, kin_drop_all, kin_drop_none
 //@   loop 1:
@@ -1005,7 +1021,7 @@ package collection
 //@   let s := view(this)
 //@   let n := len(view(this))
 //@   nopanic
-//@   modifies view(this), aval(view(this)[kwit(view(this), key)])
+//@   modifies view(this), aval(ite(kmem(view(this), key), view(this)[kwit(view(this), key)], nil))
 //@   ensures[C03] kmem(s, key) ==> view(this) == s && aval(s[kwit(s, key)]) == value
 //@   ensures[C03] !kmem(s, key) ==> len(view(this)) == n + 1 && view(this) == s ++ single(view(this)[n]) && fresh(view(this)[n]) && view(this)[n] != nil && akey(view(this)[n]) == key && aval(view(this)[n]) == value
 //@   ensures[C03] wellkeyed(s) ==> wellkeyed(view(this))
@@ -1033,20 +1049,20 @@ package collection
 //@   ensures[C03] forall j :: 0 <= j && j < len(view(keys)) ==> view(result)[j] == ite(kmem(view(this), view(keys)[j]), aval(view(this)[kwit(view(this), view(keys)[j])]), zero(V))
 
 //@ func (*catalogClass_).Make
-//@   props C03 C16
+//@   props C03 C16 C19
 //@   implements CatalogClassLike.Make
 //@   ensures inv(catalog_, result)
 //@ func (*catalog_).GetValue
-//@   props C03 C16
+//@   props C03 C16 C19
 //@   implements CatalogLike.GetValue
 //@   uses kwit_unique
 //@ func (*catalog_).SetValue
-//@   props C03 C16
+//@   props C03 C16 C19
 //@   implements CatalogLike.SetValue
 //@   uses kmem_append, kwit_unique, kwit_append_old, kwit_append_new
 //@   modifies view(this.associations_), mapof(this.keys_), aval(get(this.keys_, key))
 //@ func (*catalog_).RemoveValue
-//@   props C03
+//@   props C03 C19
 //@   implements CatalogLike.RemoveValue
 //@   uses kmem_remove, kwit_unique
 //@   modifies view(this.associations_), mapof(this.keys_)
@@ -1057,11 +1073,11 @@ package collection
 //@     invariant unchanged(view)
 //@     decreases len(s) - pos(iterator)
 //@ func (*catalog_).RemoveAll
-//@   props C03
+//@   props C03 C19
 //@   implements CatalogLike.RemoveAll
 //@   modifies view(this.associations_), this.keys_
 //@ func (*catalog_).GetKeys
-//@   props C03 C18
+//@   props C03 C18 C19
 //@   implements CatalogLike.GetKeys
 //@   let s := view(this)
 //@   loop 1:
@@ -1070,7 +1086,7 @@ package collection
 //@     invariant forall i :: 0 <= i && i < len(s) ==> s[i] != nil
 //@     decreases len(s) - pos(iterator)
 //@ func (*catalog_).GetValues
-//@   props C03 C18
+//@   props C03 C18 C19
 //@   implements CatalogLike.GetValues
 //@   let ks := view(keys)
 //@   loop 1:
@@ -1080,16 +1096,16 @@ package collection
 //@     invariant unchanged(aval)
 //@     decreases len(ks) - pos(iterator)
 //@ func (*catalog_).IsEmpty
-//@   props C03
+//@   props C03 C19
 //@   implements Sequential.IsEmpty
 //@ func (*catalog_).GetSize
-//@   props C03
+//@   props C03 C19
 //@   implements Sequential.GetSize
 //@ func (*catalog_).AsArray
-//@   props C03 C18
+//@   props C03 C18 C19
 //@   implements Sequential.AsArray
 //@ func (*catalog_).GetIterator
-//@   props C03 C17 C18
+//@   props C03 C17 C18 C19
 //@   implements Sequential.GetIterator
 
 // ---------------------------------------------------------------- catalog constructors, Merge, Extract (C03, C16)
@@ -1119,7 +1135,7 @@ package collection
 //@   ensures[C03] ukeys(s) ==> len(view(result)) == len(s) && (forall i :: 0 <= i && i < len(s) ==> akey(view(result)[i]) == akey(s[i]))
 
 //@ func (*catalogClass_).MakeFromSequence
-//@   props C03 C16 C18
+//@   props C03 C16 C18 C19
 //@   implements CatalogClassLike.MakeFromSequence
 //@   assumes allallocated(view(associations))
 //@   uses kmem_snoc, kmem_take_none, kmem_take_all, kmem_take_elem
@@ -1132,7 +1148,7 @@ package collection
 //@     invariant ukeys(s) ==> len(view(catalog)) == pos(iterator) && (forall i :: 0 <= i && i < pos(iterator) ==> akey(view(catalog)[i]) == akey(s[i]))
 //@     decreases len(s) - pos(iterator)
 //@ func (*catalogClass_).MakeFromArray
-//@   props C03 C18
+//@   props C03 C18 C19
 //@   implements CatalogClassLike.MakeFromArray
 
 //@ iface CatalogClassLike.Merge
@@ -1149,7 +1165,7 @@ package collection
 //@   ensures[C16] forall p, q :: len(f) <= p && p < q && q < len(view(result)) ==> kwit(s, akey(view(result)[p])) < kwit(s, akey(view(result)[q]))
 
 //@ func (*catalogClass_).Merge
-//@   props C16 C18
+//@   props C16 C18 C19
 //@   implements CatalogClassLike.Merge
 //@   uses kmem_snoc, kmem_take_none, kmem_take_all, kmem_take_elem, kwit_unique
 //@   assumes allallocated(view(first)) && allallocated(view(second))
@@ -1184,7 +1200,7 @@ package collection
 //@ lemma[C16] kin_take_elem: forall s Seq, p Int, i Int :: { s[0:p], s[i] } 0 <= i && i < p && p <= len(s) ==> kin(s[0:p], s[i])
 
 //@ func (*catalogClass_).Extract
-//@   props C16 C18
+//@   props C16 C18 C19
 //@   implements CatalogClassLike.Extract
 //@   uses kmem_snoc, kmem_take_none, kmem_take_all, kmem_take_elem, kin_snoc, kin_take_none, kin_take_all, kinw_unique, kin_take_elem, kwit_unique
 //@   assumes allallocated(view(catalog))
@@ -1215,7 +1231,7 @@ package collection
 //@   ensures[C09] sameelems(view(this), old(view(this)))
 //@ iface Sortable.SortValuesWithRanker
 //@   nopanic
-//@   modifies view(this)
+//@   modifies view(this), cstate(boundrecv(ranker))
 //@   ensures[C09] sameelems(view(this), old(view(this)))
 //@ iface Sortable.ReverseValues
 //@   nopanic
@@ -1228,28 +1244,28 @@ package collection
 //@   ensures[C09] sameelems(view(this), old(view(this)))
 
 //@ func (array_).SortValues
-//@   props C09 C01
+//@   props C09 C01 C19
 //@   implements Sortable.SortValues
 //@ func (array_).SortValuesWithRanker
-//@   props C09 C01
+//@   props C09 C01 C19
 //@   implements Sortable.SortValuesWithRanker
 //@ func (array_).ReverseValues
-//@   props C09 C01
+//@   props C09 C01 C19
 //@   implements Sortable.ReverseValues
 //@ func (array_).ShuffleValues
-//@   props C09 C01
+//@   props C09 C01 C19
 //@   implements Sortable.ShuffleValues
 //@ func (*list_).SortValues
-//@   props C09 C01
+//@   props C09 C01 C19
 //@   implements Sortable.SortValues
 //@ func (*list_).SortValuesWithRanker
-//@   props C09 C01
+//@   props C09 C01 C19
 //@   implements Sortable.SortValuesWithRanker
 //@ func (*list_).ReverseValues
-//@   props C09 C01
+//@   props C09 C01 C19
 //@   implements Sortable.ReverseValues
 //@ func (*list_).ShuffleValues
-//@   props C09 C01
+//@   props C09 C01 C19
 //@   implements Sortable.ShuffleValues
 
 // A sequence with the same multiset of elements is a permutation: the witnessing bijection exists.
@@ -1261,21 +1277,21 @@ package collection
 //@ define samemapping(s, t) := (wellkeyed(t) ==> wellkeyed(s)) && (forall k U :: kmem(s, k) <==> kmem(t, k)) && (wellkeyed(t) ==> (forall k U :: kmem(t, k) ==> s[kwit(s, k)] == t[kwit(t, k)]))
 
 //@ func (*catalog_).SortValues
-//@   props C03 C09
+//@   props C03 C09 C19
 //@   implements Sortable.SortValues
 //@   modifies view(this.associations_)
 //@   uses kmem_perm, ukeys_perm, kobj_perm, nonnil_perm
 //@   hint call1: permof(view(this), old(view(this)))
 //@   ensures[C03] permof(view(this), old(view(this))) && samemapping(view(this), old(view(this))) && unchanged(aval)
 //@ func (*catalog_).SortValuesWithRanker
-//@   props C03 C09
+//@   props C03 C09 C19
 //@   implements Sortable.SortValuesWithRanker
-//@   modifies view(this.associations_)
+//@   modifies view(this.associations_), cstate(boundrecv(ranker))
 //@   uses kmem_perm, ukeys_perm, kobj_perm, nonnil_perm
 //@   hint call1: permof(view(this), old(view(this)))
 //@   ensures[C03] permof(view(this), old(view(this))) && samemapping(view(this), old(view(this))) && unchanged(aval)
 //@ func (*catalog_).ShuffleValues
-//@   props C03 C09
+//@   props C03 C09 C19
 //@   implements Sortable.ShuffleValues
 //@   modifies view(this.associations_)
 //@   uses kmem_perm, ukeys_perm, kobj_perm, nonnil_perm
@@ -1283,7 +1299,7 @@ package collection
 //@   ensures[C03] permof(view(this), old(view(this))) && samemapping(view(this), old(view(this))) && unchanged(aval)
 //@ lemma[C03] rev_sameelems: forall s Seq, t Seq, x U :: { cnt(s, 0, len(s), x), cnt(t, 0, len(t), x) } len(s) == len(t) && (forall i :: 0 <= i && i < len(t) ==> s[i] == t[len(t) - 1 - i]) ==> cnt(s, 0, len(s), x) == cnt(t, 0, len(t), x)
 //@ func (*catalog_).ReverseValues
-//@   props C03 C09
+//@   props C03 C09 C19
 //@   implements Sortable.ReverseValues
 //@   modifies view(this.associations_)
 //@   uses kmem_perm, ukeys_perm, kobj_perm, nonnil_perm, rev_sameelems
@@ -1298,7 +1314,7 @@ package collection
 //@   ensures[C03] forall k U :: kmem(view(result), k) <==> dom(associations, k)
 //@   ensures[C03] forall k U :: dom(associations, k) ==> valof(view(result), k) == get(associations, k)
 //@ func (*catalogClass_).MakeFromMap
-//@   props C03 C18
+//@   props C03 C18 C19
 //@   implements CatalogClassLike.MakeFromMap
 //@   loop 1:
 //@     invariant 0 <= $rpos && $rpos <= len($enum) && catalog != nil && fresh(catalog)
@@ -1314,7 +1330,7 @@ package collection
 //@   ensures[C03] wellkeyed(old(view(this))) ==> wellkeyed(view(this))
 //@   ensures[C03] forall k U :: kmem(view(this), k) <==> kmem(old(view(this)), k) && !kin(old(view(keys)), k)
 //@ func (*catalog_).RemoveValues
-//@   props C03 C18
+//@   props C03 C18 C19
 //@   implements CatalogLike.RemoveValues
 //@   uses kin_snoc, kin_take_none, kin_take_all
 //@   modifies view(this.associations_), mapof(this.keys_)
@@ -1333,7 +1349,7 @@ package collection
 //@   ensures[C14,C18] fresh(result) && result != nil && len(view(result)) == len(view(keys))
 //@   ensures[C14] forall k U :: (dom(this, k) <==> old(dom(this, k)) && !kin(old(view(keys)), k)) && (dom(this, k) ==> get(this, k) == old(get(this, k)))
 //@ func (map_).RemoveValues
-//@   props C14 C18
+//@   props C14 C18 C19
 //@   implements MapLike.RemoveValues
 //@   uses kin_snoc, kin_take_none, kin_take_all
 //@   let ks := view(keys)
@@ -1382,8 +1398,28 @@ package collection
 //@ declare parsedval(Str) U
 //@ iface NotationLike.ParseSource
 //@   defines result == parsedval(source)
+// formatting reads the value and writes nothing that existed before the call (C19: one notation is shared by
+// every instance of a class, through String())
 //@ iface NotationLike.FormatValue
-//@   nopanic
+//@   nilok
+
+// ---------------------------------------------------------------- String() (C19): no write footprint at all
+//@ func (array_).String
+//@   props C19
+//@ func (*association_).String
+//@   props C19
+//@ func (*catalog_).String
+//@   props C19
+//@ func (*list_).String
+//@   props C19
+//@ func (map_).String
+//@   props C19
+//@ func (*queue_).String
+//@   props C19
+//@ func (*set_).String
+//@   props C19
+//@ func (*stack_).String
+//@   props C19
 
 // ---------------------------------------------------------------- queue_ (C04, C05, C18): sequential reading + guarded-by
 
@@ -1428,21 +1464,21 @@ package collection
 //@   ensures result == capacity(this) && result >= 1
 
 //@ func (*queueClass_).MakeWithCapacity
-//@   props C04 C05
+//@   props C04 C05 C19
 //@   implements QueueClassLike.MakeWithCapacity
 //@   ensures[C04] inv(queue_, result) && capacity(result) >= 1 && (capacity >= 1 ==> capacity(result) == capacity)
 //@ func (*queueClass_).Make
-//@   props C04 C05
+//@   props C04 C05 C19
 //@   implements QueueClassLike.Make
 //@ func (*queueClass_).MakeFromSequence
-//@   props C05 C18
+//@   props C05 C18 C19
 //@   implements QueueClassLike.MakeFromSequence
 //@   loop 1:
 //@     invariant snap(iterator) == old(view(values)) && 0 <= pos(iterator) && pos(iterator) <= len(snap(iterator))
 //@     invariant queue != nil && fresh(queue) && view(queue) == old(view(values))[0 : pos(iterator)] && len(snap(iterator)) <= capacity(queue)
 //@     decreases len(snap(iterator)) - pos(iterator)
 //@ func (*queueClass_).MakeFromArray
-//@   props C05 C18
+//@   props C05 C18 C19
 //@   implements QueueClassLike.MakeFromArray
 
 // queue_ instance methods: the effect of each call on the abstract FIFO when it runs without interference
@@ -1463,10 +1499,10 @@ package collection
 //@   ensures result <==> len(view(this)) == 0
 
 //@ func (*queue_).GetCapacity
-//@   props C04
+//@   props C04 C19
 //@   implements QueueLike.GetCapacity
 //@ func (*queue_).AddValue
-//@   props C04 C05
+//@   props C04 C05 C19
 //@   mayblock
 //@   nopanic
 //@   requires !held(qmutex(this)) && !chanclosed(this.available_)
@@ -1474,7 +1510,7 @@ package collection
 //@   ensures[C04] !held(qmutex(this)) && view(this) == old(view(this)) ++ single(value)
 //@   ensures[C04,C05] old(len(view(this))) < this.capacity_
 //@ func (*queue_).RemoveHead
-//@   props C04 C05
+//@   props C04 C05 C19
 //@   mayblock
 //@   nopanic
 //@   requires !held(qmutex(this))
@@ -1483,37 +1519,37 @@ package collection
 //@   ensures[C04] result.1 ==> old(len(view(this))) > 0 && result.0 == old(view(this))[0] && view(this) == remove(old(view(this)), 0)
 //@   ensures[C04] !result.1 ==> old(len(view(this))) == 0 && chanclosed(this.available_) && view(this) == old(view(this)) && result.0 == zero(V)
 //@ func (*queue_).RemoveAll
-//@   props C04
+//@   props C04 C19
 //@   nopanic
 //@   requires !held(qmutex(this))
 //@   modifies this.values_, this.available_, held(qmutex(this))
 //@   ensures[C04] !held(qmutex(this)) && view(this) == empty()
 //@ func (*queue_).CloseQueue
-//@   props C04
+//@   props C04 C19
 //@   requires !held(qmutex(this))
 //@   modifies held(qmutex(this))
 //@   ensures[C04] !held(qmutex(this)) && chanclosed(this.available_) && view(this) == old(view(this))
 //@   xensures[C04] !held(qmutex(this)) || old(chanclosed(this.available_))
 //@ func (*queue_).IsEmpty
-//@   props C04
+//@   props C04 C19
 //@   nopanic
 //@   requires !held(qmutex(this))
 //@   modifies held(qmutex(this))
 //@   ensures[C04] !held(qmutex(this)) && (result <==> len(view(this)) == 0)
 //@ func (*queue_).GetSize
-//@   props C04
+//@   props C04 C19
 //@   nopanic
 //@   requires !held(qmutex(this))
 //@   modifies held(qmutex(this))
 //@   ensures[C04] !held(qmutex(this)) && result == len(view(this)) && result <= this.capacity_
 //@ func (*queue_).AsArray
-//@   props C04 C18
+//@   props C04 C18 C19
 //@   nopanic
 //@   requires !held(qmutex(this))
 //@   modifies held(qmutex(this))
 //@   ensures[C04,C18] !held(qmutex(this)) && fresh(result) && view(result) == view(this)
 //@ func (*queue_).GetIterator
-//@   props C04 C17 C18
+//@   props C04 C17 C18 C19
 //@   nopanic
 //@   requires !held(qmutex(this))
 //@   modifies held(qmutex(this))
@@ -1533,7 +1569,7 @@ package collection
 //@ define delivered(q) := got(q)[len(old(got(q))) : len(got(q))]
 
 //@ func (*queueClass_).Fork
-//@   props C06
+//@   props C06 C19
 //@   nilok
 //@   requires group != nil && input != nil
 //@   modifies wgcount(group)
@@ -1601,7 +1637,7 @@ package collection
 //@ lemma[C06] split_then_join: forall h U, d Seq, p Seq, n Int :: { qhist(h, n), len(d), len(p) } n >= 1 && len(d) == len(p) && (forall i :: { d[i] } 0 <= i && i < len(d) ==> qhist(h, rr(i, n))[rcount(i, rr(i, n), n)] == d[i]) && (forall i :: { p[i] } 0 <= i && i < len(p) ==> qhist(h, rr(i, n))[rcount(i, rr(i, n), n)] == p[i]) ==> p == d
 
 //@ func (*queueClass_).Split
-//@   props C06
+//@   props C06 C19
 //@   nilok
 //@   requires group != nil && input != nil
 //@   modifies wgcount(group)
@@ -1649,7 +1685,7 @@ package collection
 
 // Join requires distinct, non-nil input queues (what Split and Fork return); on other arguments nothing is claimed
 //@ func (*queueClass_).Join
-//@   props C06
+//@   props C06 C19
 //@   nilok
 //@   requires group != nil
 //@   requires inputs != nil ==> nonnil(view(inputs)) && distinct(view(inputs)) && allallocated(view(inputs))
